@@ -376,6 +376,45 @@ func genC04(e *emitter, r *rng, tier string) {
 		b.add("fwd:%d:1000", h)
 		b.emit(e, "C04.history.rerun_stored_sequences")
 	}
+	// views whose Number has been dropped and collected before the first read
+	dr := 30
+	if tier == "thorough" {
+		dr = 300
+	}
+	for i := 0; i < dr; i++ {
+		var ns numSpec
+		switch r.intn(4) {
+		case 0:
+			ns = numSpec{desc: fmt.Sprintf("S:%d:1", 2+r.intn(40)), length: -2, allV: true}
+		case 1:
+			ns = numSpec{desc: fmt.Sprintf("R:%d:%d", 1+r.intn(500), 1+r.intn(99)), length: -2, allV: true}
+		case 2:
+			ns = genNumber(r.pick([]int{-1, 50, 100, 250}), r.rangeInt(-2, 4), false)
+		default:
+			ns = finiteNumber(r, r.pick([]int{5, 50, 120}), r.rangeInt(-2, 4))
+		}
+		b := newScriptBuilder(r, ns)
+		st := r.pick([]int{1, 2, 7, 40})
+		b.add("ws:0:%d", st)
+		b.handles = append(b.handles, hinfo{st, maxInt})
+		en := st + r.pick([]int{3, 30, 150})
+		b.add("we:1:%d", en)
+		b.handles = append(b.handles, hinfo{st, en})
+		if r.coin(50) {
+			b.add("wsig:0:%d", en)
+			b.handles = append(b.handles, hinfo{0, en})
+		}
+		for _, h := range []int{2, 1, len(b.handles) - 1} {
+			if h == 1 {
+				b.add("fwd:1:%d", 40)
+			} else {
+				b.add("fwd:%d:400", h)
+				b.add("back:%d:400", h)
+			}
+		}
+		b.ns.desc = "D" + b.ns.desc
+		b.emit(e, "C04.history.base_dropped_and_collected")
+	}
 	// histories that contain OTHER operations on the Number and on truncated views of it —
 	// formatting (String, Exact, Format), printing, searching — before the reads: none of them may
 	// change what any read path reports afterwards
